@@ -326,3 +326,19 @@ def flat_pair(draw, ka, kb, recipe):
     a = draw(free_flat(ka))
     b = draw(related_flat(a, kb, recipe))
     return (a, b)
+
+
+@st.composite
+def variant(draw):
+    """(ctype_a, form_a, ctype_b, form_b): coordinate type (float / int where integral) and constructor form"""
+    return (
+        draw(st.sampled_from(("f", "f", "i"))),
+        draw(st.integers(0, 11)),
+        draw(st.sampled_from(("f", "f", "i"))),
+        draw(st.integers(0, 11)),
+    )
+
+
+@st.composite
+def with_variant(draw, strategy):
+    return tuple(draw(strategy)) + (draw(variant()),)
